@@ -231,7 +231,8 @@ pub fn c12(ctx: &mut Ctx) {
             ctx.count(match &out { Outcome::Ok(_) => "outcome/ok", Outcome::Err(_) => "outcome/err", Outcome::Panic(_) => "outcome/PANIC" });
             if let Outcome::Panic(p) = &out { ctx.count("panic(see C13)"); let _ = p; break; }
             // a removed / replaced node has no parent
-            if let (true, Op::RemoveChild { .. } | Op::ReplaceChild { .. }, Outcome::Ok(Ret::Node(x))) = (ok, &op, &out) { if let Some(p) = h.pool.h[x.idx].node.parent_node() { ctx.violation(i, "C12/tree/removed-node-has-parent", &format!("{} returned a node whose parent_node() is id {} :: history {:?} :: doc {}", desc, p.id(), h.log, h.text), &[("doc", &h.text), ("history", &h.log.join("\n"))]); break; } }
+            let itself = matches!(&op, Op::ReplaceChild { n, o, .. } if n == o);
+            if let (true, false, Op::RemoveChild { .. } | Op::ReplaceChild { .. }, Outcome::Ok(Ret::Node(x))) = (ok, itself, &op, &out) { if let Some(p) = h.pool.h[x.idx].node.parent_node() { ctx.violation(i, "C12/tree/removed-node-has-parent", &format!("{} returned a node whose parent_node() is id {} :: history {:?} :: doc {}", desc, p.id(), h.log, h.text), &[("doc", &h.text), ("history", &h.log.join("\n"))]); break; } }
             let chk = guarded(|| c12_check(&h));
             match chk {
                 Caught::Ok(None) => {}
@@ -315,6 +316,11 @@ pub fn storable(k: K, s: &str) -> bool {
     }
 }
 
+fn touches_doctype(op: &Op, pool: &Pool) -> bool {
+    let k = |i: &usize| pool.h[*i].kind == K::Doctype;
+    match op { Op::AppendChild { p, c } => k(p) || k(c), Op::InsertBefore { p, c, r } => k(p) || k(c) || r.as_ref().map(k).unwrap_or(false), Op::ReplaceChild { p, n, o } => k(p) || k(n) || k(o), Op::RemoveChild { p, o } => k(p) || k(o), _ => false }
+}
+
 fn ret_idx(r: &Ret) -> Option<usize> { match r { Ret::Node(x) => Some(x.idx), Ret::OptNode(Some(x)) => Some(x.idx), _ => None } }
 
 pub fn c13(ctx: &mut Ctx) {
@@ -334,7 +340,20 @@ pub fn c13(ctx: &mut Ctx) {
             guard += 1;
             let op = gen_op(&mut r, &h.pool, Profile::Specified);
             let exp = m.expect(&op);
-            if exp.unspecified || exp.errs.contains(&E::NotCallable) { ctx.count("skipped/unspecified-by-DOM-Level-1"); continue; }
+            if exp.errs.contains(&E::NotCallable) { ctx.count("skipped/not-callable"); continue; }
+            if exp.unspecified && touches_doctype(&op, &h.pool) { ctx.count("skipped/doctype-edit(unspecified, see C15-doctype-removal)"); continue; }
+            if exp.unspecified {
+                // DOM Level 1 does not fix the outcome: the call must still not panic, and if it fails it must fail atomically;
+                // after a success the model is re-read from the library (no effect is demanded)
+                let desc = h.pool.describe_op(&op);
+                ctx.evaluations += 1; ctx.count("unspecified-by-DOM-Level-1/run");
+                match h.pool.apply(&op) {
+                    Outcome::Panic(p) => { h.log.push(desc.clone()); ctx.violation(i, &format!("C13/dom/{}/unspecified/panic/{}", op.name(), p.split(".rs").next().unwrap_or("")), &format!("{} panicked ({}) :: history {:?} :: doc {}", desc, p, h.log, h.text), &[("doc", &h.text), ("history", &h.log.join("\n"))]); break; }
+                    Outcome::Err(e) => { match snapshot(&h) { Ok(after) => if after != before { h.log.push(desc.clone()); ctx.violation(i, &format!("C13/dom/{}/{}/not-atomic/{}", op.name(), e.name(), what_changed(&before, &after)), &format!("{} failed with {} but changed the document ({}) :: history {:?} :: doc {}", desc, e.name(), what_changed(&before, &after), h.log, h.text), &[("doc", &h.text), ("history", &h.log.join("\n"))]); break; }, Err(_) => break } }
+                    Outcome::Ok(_) => { h.log.push(desc); h.pool.register_tree(&h.docs[0].dom.as_node(), 0); h.pool.register_tree(&h.docs[1].dom.as_node(), 1); m = Model::from_pool(&h.pool); match snapshot(&h) { Ok(s2) => { if compare_state(&h, &m, &s2).is_some() { ctx.inconclusive("model_resync_failed"); break; } before = s2; } Err(_) => break } }
+                }
+                continue;
+            }
             // an edit whose result the node kind cannot hold may be refused (C15 decides those)
             if exp.ok { if let Some((k, res)) = m.result_data(&op) { if !storable(k, &res) { ctx.count("skipped/result-not-storable(see C15)"); continue; } } }
             done += 1;
@@ -573,7 +592,94 @@ pub fn c15_eval(doc: &XmlDocument) -> Option<(String, String)> {
     None
 }
 
+/// all ways to cut a string into `k` non-empty pieces
+fn cuts(s: &str, k: usize) -> Vec<Vec<String>> {
+    let cs: Vec<char> = s.chars().collect();
+    if k == 1 { return vec![vec![s.to_string()]]; }
+    let mut out = vec![];
+    for i in 1..cs.len() { let head: String = cs[..i].iter().collect(); let tail: String = cs[i..].iter().collect(); for mut rest in cuts(&tail, k - 1) { let mut v = vec![head.clone()]; v.append(&mut rest); out.push(v); } }
+    out
+}
+
+/// Directed junction table: every way to spell a forbidden sequence across several individually harmless
+/// edits (adjacent nodes, append / insert next to existing data, deletions that join two characters).
+/// Each script runs on a scratch document; every call may be refused, but what succeeds must stay faithful.
+fn c15_directed(ctx: &mut Ctx, base: u64) {
+    const DOC: &str = "<r a='v'><e/><f>t</f></r>";
+    let mut scripts: Vec<(String, Vec<String>)> = vec![]; // (kind, arguments)
+    for seq in ["]]>", "a]]>b", "]]]>", "]]>]]>"] { for k in 2..=3 { for c in cuts(seq, k) { scripts.push(("adjacent-text".into(), c.clone())); scripts.push(("text-append".into(), c.clone())); scripts.push(("cdata-append".into(), c.clone())); scripts.push(("text-split-then-set".into(), c.clone())); scripts.push(("text-insert-front".into(), c)); } } }
+    for seq in ["--", "a--b", "x-", "-", "--x", "a-"] { for k in 1..=3 { for c in cuts(seq, k) { if c.len() == k { scripts.push(("comment-append".into(), c.clone())); scripts.push(("comment-insert-front".into(), c)); } } } }
+    for (data, off, count) in [("a-x-b", 2, 1), ("-x-", 1, 1), ("ab-c", 3, 1), ("ab-c", 3, 9), ("-ab", 1, 2), ("a-", 0, 1), ("x--y", 0, 0)] { scripts.push(("comment-delete".into(), vec![data.into(), off.to_string(), count.to_string()])); scripts.push(("comment-replace-empty".into(), vec![data.into(), off.to_string(), count.to_string()])); }
+    for (data, off, count) in [("]]x>", 2, 1), ("]x]>", 1, 1), ("a]]xy>b", 3, 2), ("]]>x", 3, 1)] { scripts.push(("text-delete".into(), vec![data.into(), off.to_string(), count.to_string()])); scripts.push(("cdata-delete".into(), vec![data.into(), off.to_string(), count.to_string()])); }
+    for seq in ["?>", "a?>b", "??>"] { scripts.push(("pi-set-data".into(), vec![seq.into()])); scripts.push(("pi-create".into(), vec![seq.into()])); }
+    for c in cuts("'\"", 2).into_iter().chain(cuts("a'b\"c", 2)).chain(cuts("\"'", 2)) { scripts.push(("attr-adjacent-text".into(), c.clone())); scripts.push(("attr-text-append".into(), c)); }
+    for v in ["<", "a<b", "&", "a&b", "&amp;", "'\"", "\"'", "a\"b'c"] { scripts.push(("attr-set-value".into(), vec![v.into()])); scripts.push(("attr-set-attribute".into(), vec![v.into()])); scripts.push(("text-set-data".into(), vec![v.into()])); }
+    for (si, (kind, args)) in scripts.iter().enumerate() {
+        let idx = base + si as u64;
+        if !ctx.mine(idx) { continue; }
+        ctx.begin(idx, &format!("directed {} {:?}", kind, args));
+        let d = match live_doc(DOC) { Ok(d) => d, Err(_) => { ctx.inconclusive("document_not_usable"); continue; } };
+        let mut h = Hist { pool: Pool::new(vec![d.dom.clone()]), docs: vec![d], text: DOC.into(), log: vec![] };
+        let find = |h: &Hist, k: K, name: &str| (0..h.pool.h.len()).find(|&i| h.pool.h[i].kind == k && (name.is_empty() || h.pool.h[i].node.node_name() == name));
+        let (e, f, a) = (find(&h, K::Element, "e").unwrap_or(0), find(&h, K::Element, "f").unwrap_or(0), find(&h, K::Attr, "a").unwrap_or(0));
+        let t_in_f = children_of(&h.pool, f).first().cloned().unwrap_or(0);
+        // the calls of the script; a refused call ends the script (refusal is fine)
+        let mut calls: Vec<Op> = vec![];
+        let num = |s: &String| s.parse::<usize>().unwrap_or(0);
+        match kind.as_str() {
+            "adjacent-text" | "attr-adjacent-text" => { let p = if kind == "adjacent-text" { e } else { a }; for x in args { calls.push(Op::CreateText { d: 0, data: x.clone() }); calls.push(Op::AppendChild { p, c: usize::MAX }); } }
+            "text-append" => { calls.push(Op::SetData { n: t_in_f, data: args[0].clone() }); for x in &args[1..] { calls.push(Op::AppendData { n: t_in_f, data: x.clone() }); } }
+            "attr-text-append" => { let t = children_of(&h.pool, a).first().cloned().unwrap_or(0); calls.push(Op::SetData { n: t, data: args[0].clone() }); for x in &args[1..] { calls.push(Op::AppendData { n: t, data: x.clone() }); } }
+            "text-insert-front" => { calls.push(Op::SetData { n: t_in_f, data: args[args.len() - 1].clone() }); for x in args[..args.len() - 1].iter().rev() { calls.push(Op::InsertData { n: t_in_f, off: 0, data: x.clone() }); } }
+            "text-split-then-set" => { calls.push(Op::SetData { n: t_in_f, data: "xy".into() }); calls.push(Op::SplitText { n: t_in_f, off: 1 }); calls.push(Op::SetData { n: t_in_f, data: args[0].clone() }); calls.push(Op::SetData { n: usize::MAX, data: args[1..].concat() }); }
+            "cdata-append" | "comment-append" | "comment-insert-front" => {
+                calls.push(if kind == "cdata-append" { Op::CreateCData { d: 0, data: String::new() } } else { Op::CreateComment { d: 0, data: String::new() } });
+                calls.push(Op::AppendChild { p: e, c: usize::MAX });
+                if kind == "comment-insert-front" { for x in args.iter().rev() { calls.push(Op::InsertData { n: usize::MAX - 1, off: 0, data: x.clone() }); } } else { for x in args { calls.push(Op::AppendData { n: usize::MAX - 1, data: x.clone() }); } }
+            }
+            "comment-delete" | "comment-replace-empty" | "text-delete" | "cdata-delete" => {
+                calls.push(match kind.split('-').next().unwrap_or("") { "comment" => Op::CreateComment { d: 0, data: args[0].clone() }, "cdata" => Op::CreateCData { d: 0, data: args[0].clone() }, _ => Op::CreateText { d: 0, data: args[0].clone() } });
+                calls.push(Op::AppendChild { p: e, c: usize::MAX });
+                calls.push(if kind == "comment-replace-empty" { Op::ReplaceData { n: usize::MAX - 1, off: num(&args[1]), count: num(&args[2]), data: String::new() } } else { Op::DeleteData { n: usize::MAX - 1, off: num(&args[1]), count: num(&args[2]) } });
+            }
+            "pi-set-data" => { calls.push(Op::CreatePI { d: 0, target: "p".into(), data: "d".into() }); calls.push(Op::AppendChild { p: e, c: usize::MAX }); calls.push(Op::SetData { n: usize::MAX - 1, data: args[0].clone() }); }
+            "pi-create" => { calls.push(Op::CreatePI { d: 0, target: "p".into(), data: args[0].clone() }); calls.push(Op::AppendChild { p: e, c: usize::MAX }); }
+            "attr-set-value" => calls.push(Op::SetNodeValue { n: a, value: args[0].clone() }),
+            "attr-set-attribute" => calls.push(Op::SetAttribute { e, name: "b".into(), value: args[0].clone() }),
+            "text-set-data" => calls.push(Op::SetData { n: t_in_f, data: args[0].clone() }),
+            _ => {}
+        }
+        let mut last_created: Option<usize> = None; // usize::MAX refers to the node the previous call returned, MAX-1 to the last created node
+        let mut last_ret: Option<usize> = None;
+        for call in calls {
+            let fix = |i: usize| -> Option<usize> { if i == usize::MAX { last_ret } else if i == usize::MAX - 1 { last_created } else { Some(i) } };
+            let op = match call {
+                Op::AppendChild { p, c } => match fix(c) { Some(c) => Op::AppendChild { p, c }, None => break },
+                Op::SetData { n, data } => match fix(n) { Some(n) => Op::SetData { n, data }, None => break },
+                Op::AppendData { n, data } => match fix(n) { Some(n) => Op::AppendData { n, data }, None => break },
+                Op::InsertData { n, off, data } => match fix(n) { Some(n) => Op::InsertData { n, off, data }, None => break },
+                Op::DeleteData { n, off, count } => match fix(n) { Some(n) => Op::DeleteData { n, off, count }, None => break },
+                Op::ReplaceData { n, off, count, data } => match fix(n) { Some(n) => Op::ReplaceData { n, off, count, data }, None => break },
+                o => o,
+            };
+            let desc = h.pool.describe_op(&op);
+            ctx.evaluations += 1; ctx.count(&format!("directed/{}", kind));
+            match h.pool.apply(&op) {
+                Outcome::Panic(_) => { ctx.count("panic(see C13)"); break; }
+                Outcome::Err(_) => { ctx.count("directed/refused"); break; }
+                Outcome::Ok(ret) => {
+                    h.log.push(desc.clone());
+                    if let Ret::Node(x) = &ret { last_ret = Some(x.idx); if matches!(op, Op::CreateText { .. } | Op::CreateComment { .. } | Op::CreateCData { .. } | Op::CreatePI { .. }) { last_created = Some(x.idx); } }
+                    if let Some((sig, detail)) = c15_eval(&h.docs[0].dom) { ctx.violation(idx, &format!("C15/serial/{}", sig), &format!("directed script {} {:?}: after {} :: {} :: successful calls {:?}", kind, args, desc, detail, h.log), &[("doc", DOC), ("history", &h.log.join("\n"))]); break; }
+                }
+            }
+        }
+        ctx.nontrivial(&format!("directed|{}|{:?}", kind, args));
+    }
+}
+
 pub fn c15(ctx: &mut Ctx) {
+    c15_directed(ctx, 20_000_000);
     let n: u64 = if ctx.thorough { 600_000 } else { 50_000 };
     for i in 0..n {
         if !ctx.mine(i) { continue; }
